@@ -582,3 +582,148 @@ def actual_struct_meaning(imp, fallible, existing, with_lets=False):
     if e[0] == 'raw':
         return ('unit',)
     return None
+
+
+# ---------------------------------------------------------------------------------------------------
+# C02: the designated arms of an enum conversion (README rules)
+# ---------------------------------------------------------------------------------------------------
+def parse_pattern(p):
+    """('unit'|'tuple'|'named', path, [bindings]) of a match-arm pattern text without spaces"""
+    m = re.fullmatch(r'([\w:]+)\((.*)\)', p)
+    if m:
+        inner = m.group(2)
+        return ('tuple', m.group(1), [x for x in inner.split(',') if x != ''])
+    m = re.fullmatch(r'([\w:]+)\{(.*)\}', p)
+    if m:
+        return ('named', m.group(1), sorted(x for x in m.group(2).split(',') if x != ''))
+    return ('unit', p, [])
+
+
+def expected_enum_arms(item, kind, fallible, cp):
+    """list of (pattern, meaning) per variant + whether a default arm is expected; OutOfScope when unsettled"""
+    is_from = kind.startswith('from')
+    arms = []
+    any_ghost_variant = False
+    for v in item.members:
+        spec = v.spec
+        own_shape = v.shape
+        hint = spec['hint']
+        cshape = {'as {}': 'named', 'as ()': 'tuple', 'as Unit': 'unit'}.get(hint, own_shape)
+        # variant-level instruction in effect
+        w = member_winner(v.attrs, kind, fallible, cp)
+        a = v.attrs[w] if w is not None else None
+        if a is not None and a.name in GHOST_KINDS:
+            any_ghost_variant = True
+            if is_from:
+                continue                      # the counterpart has no such variant
+            if a.default is None:
+                continue                      # no default: nothing to produce (falls to the default case)
+            arms.append((('own', v.name), ('expr', nsp(a.default))))
+            continue
+        cname = str(a.member) if (a is not None and getattr(a, 'member', None) is not None) else v.name
+        # payload
+        fields = []
+        for q, f in enumerate(v.fields):
+            fw = member_winner(f.attrs, kind, fallible, cp)
+            fa = f.attrs[fw] if fw is not None else None
+            own = f.name if f.name is not None else str(q)
+            own_bind = f.name if f.name is not None else 'f%d' % q
+            ghost = fa is not None and fa.name in GHOST_KINDS
+            member = getattr(fa, 'member', None) if (fa is not None and not ghost) else None
+            expr = getattr(fa, 'expr', None) if (fa is not None and not ghost) else None
+            fields.append(dict(own=own, own_bind=own_bind, ghost=ghost, default=getattr(fa, 'default', None) if ghost else None,
+                               member=member, expr=expr, q=q, named=f.name is not None))
+        if is_from:
+            # pattern on the counterpart variant, expression builds the own variant
+            binds = []
+            vals = []
+            for fd in fields:
+                if fd['ghost']:
+                    if fd['default'] is None:
+                        raise OutOfScope('payload ghost without default under From')
+                    vals.append((fd['own'], nsp(fd['default'])))
+                    continue
+                if cshape == 'named':
+                    if fd['member'] is not None:
+                        b = str(fd['member'])
+                    elif fd['named']:
+                        b = fd['own']
+                    else:
+                        raise OutOfScope('tuple payload read from a struct-form variant without a member name')
+                elif cshape == 'tuple':
+                    if fd['member'] is not None and str(fd['member']).isdigit():
+                        b = 'f%s' % fd['member']
+                    elif fd['member'] is not None:
+                        raise OutOfScope('named member under a tuple-form variant')
+                    else:
+                        b = 'f%d' % fd['q']
+                else:
+                    raise OutOfScope('payload read from a unit-form variant')
+                binds.append(b if cshape == 'named' else 'f%d' % fd['q'])
+                vals.append((fd['own'], subst_text(fd['expr'], b, 'value') if fd['expr'] is not None else b))
+            if any(fd['ghost'] for fd in fields) and cshape == 'tuple' and any(not fd['ghost'] and fd['q'] > min(x['q'] for x in fields if x['ghost']) for fd in fields):
+                raise OutOfScope('positional binding after a skipped payload field')
+            pat = (cshape if fields else ('unit' if cshape == 'unit' or own_shape == 'unit' else cshape), cname, sorted(binds) if cshape == 'named' else binds)
+            if own_shape == 'named':
+                mean = ('named', dict(vals))
+            elif own_shape == 'tuple':
+                mean = ('tuple', [x for _, x in vals])
+            else:
+                mean = ('unit',)
+            arms.append((('cp', pat), ('build', 'own', v.name, mean)))
+        else:
+            binds = [fd['own_bind'] for fd in fields]
+            pat = (own_shape, v.name, sorted(binds) if own_shape == 'named' else binds)
+            vals = []
+            for fd in fields:
+                if fd['ghost']:
+                    continue
+                if cshape == 'tuple' and fd['member'] is not None:
+                    raise OutOfScope('index rename under a tuple-form destination variant (finding F-01a)')
+                val = subst_text(fd['expr'], fd['own_bind'], 'self') if fd['expr'] is not None else fd['own_bind']
+                if cshape == 'named':
+                    if fd['member'] is not None:
+                        place = str(fd['member'])
+                    elif fd['named']:
+                        place = fd['own']
+                    else:
+                        raise OutOfScope('tuple payload written to a struct-form variant without a member name')
+                    vals.append((place, val))
+                else:
+                    vals.append((None, val))
+            if cshape == 'named':
+                mean = ('named', dict(vals))
+            elif cshape == 'tuple':
+                mean = ('tuple', [x for _, x in vals])
+            else:
+                mean = ('unit',)
+            arms.append((('own', pat), ('build', 'cp', cname, mean)))
+    return arms, any_ghost_variant
+
+
+def actual_enum_arms(imp, fallible):
+    blk = fn_block(imp)
+    if blk is None:
+        return None
+    stmts = [x for x in blk[1:] if x[0] != 'let']
+    if len(stmts) != 1 or stmts[0][0] != 'tail':
+        return None
+    e = stmts[0][1]
+    if fallible:
+        if not (isinstance(e, list) and e[0] == 'call' and sval(e[1]) == 'Ok' and len(e) == 3):
+            return None
+        e = e[2]
+    if not (isinstance(e, list) and e[0] == 'match'):
+        return None
+    arms = []
+    for a in e[2:]:
+        pat = sval(a[1])
+        body = a[-1]
+        if isinstance(body, list) and body[0] == 'struct':
+            m = ('named', {sval(x[1]): sem_text(x[2]) for x in body[2:] if x[0] == 'f'})
+            arms.append((pat, ('build', sval(body[1]), m)))
+        elif isinstance(body, list) and body[0] == 'call' and '::' in sval(body[1]):
+            arms.append((pat, ('build', sval(body[1]), ('tuple', [sem_text(x) for x in body[2:]]))))
+        else:
+            arms.append((pat, ('expr', sem_text(body))))
+    return sval(e[1]), arms
